@@ -194,10 +194,15 @@ fn command_go(
         let binc = binc.unwrap();
 
         // We decrease the time to make sure we never run out
-        let white_time =
-            (wtime as f64 * FRACTION_OF_TOTAL_TIME) as u64 + winc - LATENCY_MS_COMPENSATE;
-        let black_time =
-            (btime as f64 * FRACTION_OF_TOTAL_TIME) as u64 + binc - LATENCY_MS_COMPENSATE;
+        // and never allot more than what is left on the clock
+        let white_time = ((wtime as f64 * FRACTION_OF_TOTAL_TIME) as u64)
+            .saturating_add(winc)
+            .saturating_sub(LATENCY_MS_COMPENSATE)
+            .min(wtime);
+        let black_time = ((btime as f64 * FRACTION_OF_TOTAL_TIME) as u64)
+            .saturating_add(binc)
+            .saturating_sub(LATENCY_MS_COMPENSATE)
+            .min(btime);
 
         time = if game.player() == Player::White {
             Some(Duration::from_millis(white_time))
